@@ -105,6 +105,26 @@ def confirm_case(c, drv, case, pred):
     return bool(ev) and pred(json.loads(ev[0]))
 
 
+def structured(n, kind, v):
+    """n content octets that LOOK like a small structured value: a code / identifier followed by a big-endian length or count
+    field that is smaller than the content (an EAP packet, a TLV, a list header ...) - a codec that interprets contents
+    (trims to an inner length, validates a count) only reacts to such contents.  kind A: v v 00 v v.., B: v 00 v v.., C: 00 v v.."""
+    head = {"A": [v, v, 0, v], "B": [v, 0, v], "C": [0, v]}[kind]
+    return (head + [v] * n)[:n]
+
+
+STRUCT_FILLS = [(k, v) for k in "ABC" for v in (1, 2, 3, 4, 5, 8)]
+
+
+def structured_elements(msg, e):
+    """byte-level: the optional element e (identifier, length field, contents) with structured contents of the same length"""
+    sl = next((s_ for s_ in TBL[msg]["slots"] if not s_["mand"] and not s_["half"] and s_["iei"] == e[0]), None)
+    if sl is None or sl["lsz"] == 0: return []
+    off = 1 + sl["lsz"]; n = len(e) - off
+    if n < 6: return []
+    return [e[:off] + structured(n, k, v) for k, v in STRUCT_FILLS]
+
+
 def fill_variants(msg, want):
     """adversarial content fills for a TLC-emitted message value: every content octet := an identifier of the same
     message / 0x00 / 0xFF / 0x7E / 0x2E (lengths, identifiers and header octets untouched)"""
@@ -112,15 +132,19 @@ def fill_variants(msg, want):
     fills = [0x00, 0xFF, 0x7E, 0x2E] + ieis[:3]
     out = []
     nh = len(header(msg))
-    for fv in fills:
+    for fv in fills + STRUCT_FILLS:
+        fillf = (lambda n: [fv] * n) if isinstance(fv, int) else (lambda n, kv=fv: structured(n, kv[0], kv[1]))
         w = json.loads(json.dumps(want))
-        for i, s in enumerate(w["mand"]):
-            if i >= nh: s["v"] = [fv] * len(s["v"])
+        mslots = [s for s in t["slots"] if s["mand"]]
+        for i, (s, ts) in enumerate(zip(w["mand"], mslots)):
+            if i >= nh:
+                n = s["len"] if ts["lsz"] > 0 else len(s["v"])
+                s["v"] = fillf(n) + [0] * (len(s["v"]) - n) if isinstance(fv, tuple) else [fv] * len(s["v"])
         optslots = [s for s in t["slots"] if not s["mand"]]
         for s, ts in zip(w["opt"], optslots):
             if s["p"] and not ts["half"]:
                 n = s["len"] if ts["lsz"] > 0 else len(s["v"])
-                s["v"] = [fv] * n + [0] * (len(s["v"]) - n)
+                s["v"] = fillf(n) + [0] * (len(s["v"]) - n)
         out.append(w)
     return out
 
@@ -231,6 +255,20 @@ def oob_full_inputs(name):
                 out.append(body(skip=s["name"], repl=el))
             elif not s["half"]:
                 out.append(body() + [s["iei"]] + el)
+    return out
+
+
+def exact_64k_inputs(name, base, singles):
+    """the optional part of a message made exactly 65 536 octets long (and 65 536 octets left after a first small element):
+    a count of octets left that is kept in 16 bits reads 0 there.  One input per element whose length field can express it."""
+    t = TBL[name]; out = []
+    small = min(singles, key=len) if singles else None
+    for s_ in t["slots"]:
+        if s_["mand"] or s_["half"] or s_["lsz"] != 2 or s_["max"] < 65533: continue
+        big = [s_["iei"], 0xFF, 0xFD] + [(i * 29 + 7) % 256 for i in range(65533)]          # 3 + 65533 = 65536 octets
+        out.append(base + big)
+        if small is not None and small[0] != s_["iei"]: out.append(base + small + big)
+        break
     return out
 
 
